@@ -1,7 +1,7 @@
 (* BestProofs.v - best_match selects the minimum of a total order on names
    (higher dewey version first, ties to the byte-wise smaller name); pairwise
    reduction of candidate lists is independent of order and association (C06). *)
-Require Import PV.Base PV.Dec PV.Dewey PV.DeweySpec PV.DeweyProofs PV.Pattern.
+Require Import PV.Base PV.Dec PV.Dewey PV.DeweySpec PV.DeweyProofs PV.Pattern PV.AltProofs.
 From Coq Require Import Permutation.
 Local Open Scope N_scope.
 
@@ -118,6 +118,24 @@ Proof.
   intros Ha Hb. unfold best2. rewrite Ha, Hb. destruct ma, mb; cbn; eauto.
   unfold pick, pver.
   destruct (dewey_cmp _ GT _); [eauto|]. destruct (dewey_cmp _ LT _); [eauto|]. destruct (str_ltb a b); eauto.
+Qed.
+
+(* best_match as the code computes it (both matches through the work-list loop) is best_match of the recursive
+   description, once the loop is given enough iterations *)
+Lemma pmatches_w_refines p pt pkg : pattern_new p = Val pt ->
+  exists k, forall f, pmatches_w (k + f) pt pkg = pmatches (fuel_for p) pt pkg.
+Proof.
+  intros E. destruct (worklist_refines p pkg) as (k & Hk). exists k. intros f. specialize (Hk f).
+  unfold pm_w, pm in Hk. rewrite E in Hk.
+  destruct (pmatches_w (k + f) pt pkg) as [b1|], (pmatches (fuel_for p) pt pkg) as [b2|]; congruence.
+Qed.
+Theorem best2_w_refines p pt a b : pattern_new p = Val pt ->
+  exists k, forall f, best2_w (k + f) pt a b = best2 (fuel_for p) pt a b.
+Proof.
+  intros E. destruct (pmatches_w_refines p pt a E) as (ka & Ha). destruct (pmatches_w_refines p pt b E) as (kb & Hb).
+  exists (ka + kb)%nat. intros f. unfold best2_w, best2.
+  replace (ka + kb + f)%nat with (ka + (kb + f))%nat at 1 by lia. rewrite Ha.
+  replace (ka + kb + f)%nat with (kb + (ka + f))%nat by lia. rewrite Hb. reflexivity.
 Qed.
 
 Theorem best_none_iff ma mb a b : best2b ma mb a b = None <-> ma = false /\ mb = false.
